@@ -80,6 +80,15 @@ def _observe(job):
                 ff = O.fx(arr, sc)
                 for j, i in enumerate(idx):
                     rowwise.append({'a': int(bigf[i]), 'b': int(ff[j])})
+            # a work buffer: the same array object is evaluated, overwritten in place with other rows and evaluated again - the
+            # second result is that of the rows the array holds now
+            idx2 = rs.choice(n * n, size=24, replace=False)
+            buf = sub.copy()
+            f(buf)
+            buf[:, :] = X[idx2]
+            ff = O.fx(np.asarray(f(buf), dtype=float), sc)
+            for j, i in enumerate(idx2):
+                rowwise.append({'a': int(bigf[i]), 'b': int(ff[j])})
         lplog = np.log(Pd.ravel())
     return {'fam': fam, 'theta': '%.6g' % theta, 'S': O.S, 'H': O.fx(H).tolist(),
             'hI6': O.fx(hI[6]).tolist(), 'hI3': O.fx(hI[3]).tolist(), 'hD': O.fx(hD).tolist(),
@@ -101,6 +110,8 @@ def run(ctx):
     ctx.assumptions = ['integral form instead of finite differences; the quadrature error bound is self-calibrating',
                        'nothing is checked between grid points / outside [1e-4, 1-1e-4]^2']
     jobs = [(fam, pos, th, npts) for fam in O.FAMS4 for pos, th in enumerate(O.chain(fam, nchain), 1)]
+    # Frank's parameter may be arbitrarily close to 0 (0 itself is excluded): two members a few 1e-8 from it
+    jobs += [('Frank', 90, 5e-8, npts), ('Frank', 91, -3e-8, npts)]
     with Pool(16) as pool:
         obs = pool.map(O.Safe(_observe), jobs, chunksize=1)
     obs, jobs = O.split_raised(ctx, 'C07', obs, jobs, 'harness.props.C07._observe')
